@@ -37,7 +37,7 @@ from . import obligations
 from .translate.util import TieBroken
 
 VERIF = os.path.dirname(os.path.dirname(os.path.abspath(__file__)))
-DRIVER = os.path.join(VERIF, "lean", ".lake", "build", "bin", "driver")
+DRIVER = os.environ.get("VERIF_DRIVER") or os.path.join(VERIF, "lean", ".lake", "build", "bin", "driver")  # VERIF_DRIVER: self-test only
 _MOD = None
 
 
